@@ -21,40 +21,47 @@ CHECKS = {
  "C06": dict(cat="exploration", ref="DESIGN 3/C06",
    text="Contracts wrapped around the real dunder methods of Point/Expression check every operator application driven by random "
         "expression trees and by model construction: denotation under random leaf assignment, operands unchanged, fresh result, "
-        "comparison sense; 43 bad-operand kinds must raise. 2e5 applications per quick run.",
+        "comparison sense, and every COEFFICIENT of the result against the operands' coefficients (relative to its own "
+        "contributions: terms of 1e-12 next to 1 count); scalars down to 1e-200, combinations built by the documented "
+        "constructor; 43 bad-operand kinds must raise. 2e6 applications per quick run.",
    note="trusted: pv/canon.py; identity testing at random points in R^5 at 1e-9 relative",
    tech="runtime contracts (pre/post snapshots) on the real operator methods + reference interpreter"),
  "C16": dict(cat="exploration", ref="DESIGN 3/C16",
    text="Every object reachable in generated models is asked for eval()/eval_dual() before any solve and after a solve that "
         "returned None (must raise ValueError exactly); purpose-built unbounded/infeasible models must return None when the "
-        "back-end says so (Clarabel and SCS); invalid option values must raise.",
+        "back-end says so (Clarabel, SCS, MOSEK stand-in); the per-function dual tables are judged as accessors too; invalid "
+        "option values (solve options, unknown solver names, step options, constraint sense) must raise.",
    note="objects without any leaf are outside the statement; SolverError is inconclusive for that case",
    tech="runtime monitor of accessor outcomes (exception type / returned value) over generated and fault models"),
  "C07": dict(cat="exploration", ref="DESIGN 3/C07",
    text="After every public Function call of random (and, thorough tier, exhaustively enumerated short) call sequences on leaf and "
         "composite functions, a state-walking hook evaluates the bookkeeping invariants (one value per point, gradient reuse, "
         "weighted-sum coherence by search over term samples, stationary/fixed points, alias points, recorded samples immutable) "
-        "and contracts on returned objects. 5e5 invariant evaluations per quick run.",
+        "and contracts on returned objects; 'the same point' is the same zero-pruned decomposition; linear operators and their "
+        "adjoints included. 5e6 invariant evaluations per quick run.",
    note="trusted: pv/canon.py; coefficient equality at 1e-9 relative",
    tech="invariant-at-a-hook: executable bookkeeping model checked at quiescent points after each call"),
  "C15": dict(cat="exploration", ref="DESIGN 3/C15",
    text="Monitor on BlockPartition.get_block (sum-back, repeated request identity, one-block identity) + comparison of the "
         "partition constraints crossing the wrapper boundary with the reference orthogonality set (both inclusions) + evaluation "
-        "on real coordinate projections of random vectors, over random multi-partition models.",
+        "on real coordinate projections of random vectors, over random multi-partition models; block-smooth class constraints "
+        "evaluated on real block-smooth quadratics with real projections (points sharing labels).",
    note="trusted: pv/canon.py and an independent bilinear expansion; growth across re-solves is judged under C13",
    tech="runtime contracts on get_block + reference-set comparison of sent constraints + concrete-projection evaluation"),
  "C12": dict(cat="exploration", ref="DESIGN 3/C12",
    text="For pairs (history, B) the canonical dump of everything crossing the wrapper boundary (order, sense, names, counters, "
         "float.hex coefficients keyed by leaf counters, solver chosen, class counters at PEP() time, null objects) taken first in a "
         "fresh interpreter is compared bit-for-bit with the dump taken after a random in-process history including failed, abandoned "
-        "(sys.monitoring failpoints), nested and orphan-object histories; results compared at 1e-9.",
+        "(sys.monitoring failpoints), nested and orphan-object histories, B itself abandoned three times inside its translator; "
+        "results compared at 1e-9.",
    note="solver assumed deterministic for bit-identical input; histories are sampled",
    tech="offline checker over recorded wrapper-boundary dumps, fresh-process reference vs fault-injected in-process histories"),
  "C13": dict(cat="exploration", ref="DESIGN 3/C13",
    text="Schedules of 2-4 solves on one problem object interleaved with edits, option changes, injected solver failures and "
         "evaluations; after each finite re-solve the C01/C02 oracles run against the latest solution, and the multiset of "
         "functionals/LMIs crossing the wrapper boundary, the Gram size and the returned value are compared with a freshly built "
-        "equivalent model run in another interpreter; after a re-solve without value accessors must raise.",
+        "equivalent model run in another interpreter; held constraints / LMIs (also removed or never added ones) must evaluate to "
+        "the latest solution; after a re-solve without value accessors must raise.",
    note="fresh equivalent = declarations+edits replayed without earlier solves; objects removed from the model by an edit are "
         "outside the statement; thresholds DESIGN 2.8",
    tech="runtime monitor of per-solve wrapper-boundary data + fresh-process reference model + accessor oracles"),
@@ -76,7 +83,8 @@ CHECKS = {
    text="Programs solved with trace/logdetN heuristics (random tolerances, both modes, both back-ends); monitors record Gram and "
         "value after every inner solve and when duals are assigned; oracle: duals assigned before any heuristic solve, C01 "
         "certificate vs originally sent constraints, dual return = plain-solve dual, primal within [opt - tol, opt], C02 "
-        "feasibility, trace monotone, heuristic problem never infeasible.",
+        "feasibility, trace monotone, heuristic problem never excludes the optimum; one configuration in six in an environment "
+        "without the mosek package (documented switch to cvxpy must keep the options).",
    note="trusted: pv/canon.py, thresholds DESIGN 2.8; MOSEK via stand-in",
    tech="runtime monitor of inner solver calls + certificate/primal oracles + differential plain solve"),
  "C04": dict(cat="exploration", ref="DESIGN 3/C04, Appendix A",
@@ -84,9 +92,12 @@ CHECKS = {
         "subgradients, fixed points, prox and composite-function arrivals, intermediate solves) for all 24 classes; generated "
         "constraints/LMIs become canonical functionals with role labels; oracle A: equal across orders; oracle B: equal to an "
         "independent reference implementation of the documented conditions, unmatched items decided by an SDP implication test "
-        "whose optimum is a concrete (Gram, F) witness.",
+        "whose optimum is a concrete (Gram, F) witness; attainment: for the 8 function classes with an explicit canonical "
+        "interpolant, small PEPs are solved and the interpolant of the returned samples (a real function) must pass through them "
+        "and satisfy the definition of its class.",
    note="trusted: pv/ref/conditions.py (transcription of the documented conditions), pv/ref/sym.py, Clarabel 'optimal' for the "
-        "implication SDPs; 'attained by a real member' relies on the published interpolation theorems",
+        "implication SDPs; 'attained by a real member' is constructed for 8 function classes (pv/interp.py) and relies on the "
+        "published interpolation theorems for the operator / linear / quadratic / QG / RSI-EB classes",
    tech="reference-model monitor over constraint lists observed after set_class_constraints, under permuted histories"),
  "C17": dict(cat="exploration", ref="DESIGN 3/C17",
    text="After finite solves of generated models covering all 24 classes in every parameter variant (named/unnamed points and "
@@ -101,7 +112,8 @@ CHECKS = {
         "self-tested on its class's defining property), concrete samples are registered through the real API in random order "
         "(leaf and combination points, repeated subgradient selections, stationary/fixed points, proximal steps, transposes, "
         "block decompositions), every leaf is bound to its concrete value and every generated scalar constraint / LMI is evaluated "
-        "by the independent evaluator; 1e5 constraint evaluations per quick run.",
+        "by the independent evaluator; a non-differentiable function must hand out a free subgradient when queried again "
+        "(admissible choices representable); limit parameters L = inf, mu = 0; 1e6 constraint evaluations per quick run.",
    note="trusted: pv/ref/members.py (self-tested members), pv/canon.py; members come from constructive families (exotic members "
         "are out of reach; C04's reference comparison is the complementary guard)",
    tech="runtime evaluation of generated constraint lists on concrete executions of real class members (conservation-style oracle)"),
@@ -119,16 +131,20 @@ CHECKS = {
         "functions = real self-tested members of the declared class, primitive steps = the real operations) is swapped into each "
         "example module, so the example's own method code runs numerically on real functions from starting points that make the "
         "initial condition active; for random admissible parameters the performance of many such runs is compared with the value "
-        "the library returns (perf <= bound*(1+1e-4)+1e-7). 64 of the 86 examples are executed this way; the others (free "
-        "leaf variables, Bregman / inexact-prox steps, LMIs) are listed as not simulated in the evidence.",
+        "the library returns (perf <= bound*(1+1e-4)+1e-7); hard instances are searched by a (1+1) evolution strategy over "
+        "by-construction member families, starting directions and inexactness choices. 85 of the 86 examples are executed this "
+        "way. For 32 examples the method DOCUMENTED in the docstring is transcribed independently (pv/ref/methods.py) and must "
+        "give the same performance as the example's body on the same function, and stay below the bound.",
    note="sampling of members and starting points: evidence reports the best performance/bound ratio reached per example (1.000 "
-        "for a dozen of them); a bound too small by less than that gap is invisible",
+        ">= 0.95 for about 40 of them in the quick tier); a bound too small by less than that gap is invisible",
    tech="differential execution: the modelled method run on real class members vs the returned bound"),
  "C10": dict(cat="exploration", ref="DESIGN 3/C10",
    text="Every shipped example is run at its pinned tuple and at random admissible tuples from its documented validity range "
         "(pv/ref/examples_table.py, transcribed from the docstrings and cross-checked with the test assertions), with Clarabel and "
         "partly through the MOSEK stand-in; tight => |pepit-theory| <= 1e-3*theory, upper => pepit <= theory*(1+1e-3); the "
-        "complexified variants must return the value of their base example at the same parameters.",
+        "complexified variants must return the value of their base example at the same parameters; equivalent reformulations "
+        "(inequalities as function LMIs, useless partition, block decompositions written P_i(2p)/2) must not move the value "
+        "(compared on proven intervals when the solver stops with optimal_inaccurate).",
    note="documented ranges are hand-transcribed (SUSPECTS list in the table documents every restriction); runs whose back-end "
         "status is not optimal are skipped and counted",
    tech="runtime oracle over example outputs on sampled documented parameter ranges (reference closed forms shipped with the examples)"),
